@@ -73,6 +73,14 @@ def model(ai, st, bi, ce, args, atys, dty, key):
         r = early(ai, st, bi, ce, args, atys, dty, key, L)
         if r is not NotImplemented:
             return pure(r)
+    if re.match(r"core::num::nonzero::NonZero::<.*>::new$", p) and len(args) == 1 and is_lin(a0):
+        # Some iff the argument is not zero
+        lo_, hi_ = ai.iv(st, a0)
+        if lo_ >= 1 or hi_ <= -1:
+            return pure(("o", 1, a0, TRUE))
+        if lo_ == 0 and hi_ == 0:
+            return pure(("o", 1, None, ("b", "const", False, None)))
+        return pure(("o", 1, a0, None))
     if p in LEN:
         return pure(L())
     if p in IS_EMPTY:
